@@ -167,8 +167,8 @@ def region_of(r, known_names) -> str | None:
     for k, v in r["headers"].items():
         if k not in known_names and k in get_excluded_headers():
             continue
-        if str(v).strip(" \t\n\x0b\x0c\r") == "":
-            return "empty_header_value"
+        if str(v) != "" and str(v).strip(" \t\n\x0b\x0c\r") == "":
+            return "blank_header_value"
     b = body_text(r["body"])
     if b and b.startswith("@"):
         return "at_body"
@@ -409,8 +409,8 @@ E2E_CHARS = list("'\"\\ $`!*?()<>|&;#~=:%@+,-./{}[]") + ["é", "中"]
 
 def e2e_region(parts) -> str | None:
     for v in (parts.get("headers") or {}).values():
-        if v.strip() == "":
-            return "empty_header_value"
+        if v != "" and v.strip() == "":
+            return "blank_header_value"
     b = parts.get("body")
     if isinstance(b, str) and parts.get("media_type") == "text/plain" and b.startswith("@"):
         return "at_body"
